@@ -523,6 +523,22 @@ def factory_closures_part(ctx):
                 ctx.violation("oracle", f"node made by make(k={k}, scale={scale}) on x={x}: cached run returned {got}, the function computes {x * scale + k} "
                               f"(an entry written by another closure of the same factory was served)", case={"ks": ks, "x": x})
                 break
+        # the same METHOD of different objects: the receiver is part of the definition
+        class Scaler:
+            def __init__(self, factor):
+                self.factor = factor
+
+            def apply(self, x):
+                return self.factor * x
+        runner = SyncRunner(cache=InMemoryCache())
+        factors = [rng.randint(1, 4) for _j in range(rng.randint(2, 3))]
+        for fct in factors:
+            got = runner.run(Graph([FunctionNode(Scaler(fct).apply, name="apply", output_name="y", cache=True)]), {"x": x}).values
+            n += 1
+            if got != {"y": fct * x}:
+                ctx.violation("oracle", f"node wrapping Scaler({fct}).apply on x={x}: cached run returned {got}, the method computes {fct * x} "
+                              f"(an entry written for the same method of ANOTHER object was served)", case={"factors": factors, "x": x})
+                break
         # a cached mutable output handed to a mutating consumer
         def mk_list(nn):
             return list(range(nn))
